@@ -79,14 +79,16 @@ def ty_from_json(d):
     if k == 'enum':
         return TEnum([tuple(x) for x in d['items']], d.get('ext', False))
     if k == 'seq':
-        return TSeq([Member(m['name'], ty_from_json(m['ty']), m['optional'],
-                            _vu(m['default']), m['has_default']) for m in d['members']], d.get('ext', False))
+        mk = lambda m: Member(m['name'], ty_from_json(m['ty']), m['optional'], _vu(m['default']), m['has_default'])  # noqa: E731
+        return TSeq([mk(m) for m in d['members']], d.get('ext', False), [mk(m) for m in d.get('additions', [])])
     if k == 'seqof':
         return TSeqOf(d['lo'], d['hi'], ty_from_json(d['elem']), d.get('ext', False))
     if k == 'choice':
         return TChoice([(a[0], ty_from_json(a[1])) for a in d['alts']], d.get('ext', False))
     if k == 'ref':
         return TRef(d['module'], d['name'])
+    if k == 'real':
+        return TReal(d['bits'])
     if k == 'raw':
         return TRaw(d['text'])
     raise ValueError(k)
@@ -138,8 +140,12 @@ class Member(object):
 class TSeq(Ty):
     kind = 'seq'
 
-    def __init__(self, members, ext=False):
-        self.members, self.ext = list(members), ext
+    def __init__(self, members, ext=False, additions=None):
+        """additions: members after the extension marker (plain extension
+        additions, neither OPTIONAL nor DEFAULT; their presence is the bit in the
+        addition bitmap); implies ext."""
+        self.members, self.ext = list(members), ext or bool(additions)
+        self.additions = list(additions or [])
 
 
 class TSeqOf(Ty):
@@ -154,6 +160,14 @@ class TChoice(Ty):
 
     def __init__(self, alts, ext=False):
         self.alts, self.ext = list(alts), ext
+
+
+class TReal(Ty):
+    """REAL restricted to IEEE 754 binary32 / binary64 by WITH COMPONENTS (OER C generator only)."""
+    kind = 'real'
+
+    def __init__(self, bits):
+        self.bits = bits
 
 
 class TRef(Ty):
@@ -245,6 +259,8 @@ class Spec(object):
                 parts.append(s)
             if t.ext:
                 parts.append('...')
+            for m in getattr(t, 'additions', []):
+                parts.append('%s %s' % (m.name, self.render(m.ty)))
             return 'SEQUENCE { %s }' % ', '.join(parts)
         if k == 'seqof':
             return 'SEQUENCE (SIZE(%s%s)) OF %s' % (_rng(t.lo, t.hi), ', ...' if t.ext else '', self.render(t.elem))
@@ -255,6 +271,10 @@ class Spec(object):
             return 'CHOICE { %s }' % ', '.join(parts)
         if k == 'ref':
             return t.name
+        if k == 'real':
+            if t.bits == 32:
+                return 'REAL (WITH COMPONENTS { mantissa (-16777215..16777215), base (2), exponent (-149..104) })'
+            return 'REAL (WITH COMPONENTS { mantissa (-9007199254740991..9007199254740991), base (2), exponent (-1074..971) })'
         if k == 'raw':
             return t.text
         raise ValueError(k)
@@ -288,7 +308,7 @@ def refs_of(t):
     if k == 'ref':
         yield t
     elif k == 'seq':
-        for m in t.members:
+        for m in t.members + getattr(t, 'additions', []):
             for r in refs_of(m.ty):
                 yield r
     elif k == 'seqof':
@@ -305,7 +325,7 @@ def subtypes(t):
     yield t
     k = t.kind
     if k == 'seq':
-        for m in t.members:
+        for m in t.members + getattr(t, 'additions', []):
             for x in subtypes(m.ty):
                 yield x
     elif k == 'seqof':
@@ -378,6 +398,8 @@ class Gen(object):
 
     def leaf(self):
         r = self.rng
+        if self.features.get('real') and r.random() < self.features['real']:
+            return TReal(r.choice([32, 64]))
         k = r.choice(['bool', 'int', 'int', 'int', 'octets', 'octets', 'bits', 'enum', 'enum', 'null'])
         if k == 'bool':
             return TBool()
@@ -418,7 +440,9 @@ class Gen(object):
         for _ in range(40):
             t = self._any_type(depth, names)
             if not any(self.avoid(x, 'type', self.spec_resolve) for x in subtypes(t)) and not any(
-                    self.avoid(m, 'member', self.spec_resolve) for x in subtypes(t) if x.kind == 'seq' for m in x.members):
+                    self.avoid(m, 'member', self.spec_resolve) for x in subtypes(t) if x.kind == 'seq' for m in x.members) \
+                    and not any(self.avoid(m, 'addition', self.spec_resolve) for x in subtypes(t) if x.kind == 'seq'
+                                for m in getattr(x, 'additions', [])):
                 return t
         return TBool()
 
@@ -465,7 +489,15 @@ class Gen(object):
                 members[-1] = Member(mn, members[-1].ty)
                 if self.avoid(members[-1], 'member', self.spec_resolve):
                     members.pop()
-        return TSeq(members, ext=r.random() < self.features.get('seq_ext', .2))
+        ext = r.random() < self.features.get('seq_ext', .2)
+        additions = []
+        if ext and self.features.get('additions') and r.random() < self.features['additions']:
+            anames = [n for n in r.sample(MEMBER_NAMES, r.choice([1, 1, 2, 3, 5, 9])) if n not in mnames]
+            for an in anames:
+                m = Member(an, self.any_type(depth - 1, names))
+                if not self.avoid(m, 'addition', self.spec_resolve):
+                    additions.append(m)
+        return TSeq(members, ext=ext, additions=additions)
 
     def choice(self, depth, names):
         r = self.rng
@@ -528,7 +560,7 @@ def over_targets(spec, ty, seen=None):
         if (1 << span.bit_length()) - 1 > span:
             out.append(t)
     if k == 'seq':
-        for m in t.members:
+        for m in t.members + getattr(t, 'additions', []):
             out += over_targets(spec, m.ty)
     elif k == 'seqof':
         if t.hi > 0:
@@ -545,7 +577,7 @@ def contains_node(spec, ty, target):
         return True
     k = t.kind
     if k == 'seq':
-        return any(contains_node(spec, m.ty, target) for m in t.members)
+        return any(contains_node(spec, m.ty, target) for m in t.members + getattr(t, 'additions', []))
     if k == 'seqof':
         return t.hi > 0 and contains_node(spec, t.elem, target)
     if k == 'choice':
@@ -576,6 +608,9 @@ def gen_over_value(spec, ty, rng, target):
                     d[m.name] = gen_value(spec, m.ty, rng)
             else:
                 d[m.name] = gen_value(spec, m.ty, rng)
+        for m in getattr(t, 'additions', []):
+            if contains_node(spec, m.ty, target):
+                d[m.name] = gen_over_value(spec, m.ty, rng, target)
         return d
     if k == 'seqof':
         n = max(t.lo, 1)
@@ -653,7 +688,24 @@ def gen_value(spec, ty, rng, edge=None, budget=None):
                     d[m.name] = gen_value(spec, m.ty, rng, edge, budget)
             else:
                 d[m.name] = gen_value(spec, m.ty, rng, edge, budget)
+        for m in getattr(t, 'additions', []):
+            if (edge == 'hi') or (edge is None and rng.random() < .6):
+                d[m.name] = gen_value(spec, m.ty, rng, edge, budget)
         return d
+    if k == 'real':
+        import struct
+        fmt, n = ('>f', 4) if t.bits == 32 else ('>d', 8)
+        if edge == 'lo':
+            return 0.0
+        if edge == 'hi':
+            return struct.unpack(fmt, b'\x7f\x7f\xff\xff' if n == 4 else b'\x7f\xef' + b'\xff' * 6)[0]
+        x = rng.random()
+        if x < .3:
+            return rng.choice([0.0, -0.0, 1.0, -1.0, 0.5, float('inf'), float('-inf'), 1.5, 3.0, -2.25])
+        while True:
+            v = struct.unpack(fmt, rng.getrandbits(8 * n).to_bytes(n, 'big'))[0]
+            if v == v:            # no NaN: payloads do not survive a Python float
+                return v
     if k == 'seqof':
         n = t.lo if edge == 'lo' else t.hi if edge == 'hi' else rng.choice([t.lo, t.hi, rng.randint(t.lo, t.hi)])
         return [gen_value(spec, t.elem, rng, edge if rng.random() < .3 else None, budget) for _ in range(n)]
@@ -668,45 +720,52 @@ def gen_value(spec, ty, rng, edge=None, budget=None):
     raise ValueError(k)
 
 
-def c_supported_type(spec, t, seen=()):
+def c_supported_type(spec, t, seen=(), codec='uper'):
     """My own statement of the documented subset of the C generator (README
     'Limitations by design' + the property text).  None when supported, else
     the reason the generator has to give an error."""
     k = t.kind
     if k == 'raw':
         return 'outside the subset'
+    if k == 'real' and codec != 'oer':
+        return 'REAL (OER generator only)'
+    if k == 'seq' and getattr(t, 'additions', None) and codec != 'oer':
+        return 'extension additions (OER generator only)'
     if k in ('int', 'octets', 'seqof') and t.ext:
         return 'extensible constraint (README: extension additions only in the OER generator)'
     if k == 'int':
         if t.lo < I64_MIN or t.hi > U64_MAX or (t.lo < 0 and t.hi > I64_MAX):
             return 'INTEGER wider than 64 bits'
-    if k in ('octets', 'seqof') and t.hi > 65535:
+    if k in ('octets', 'seqof') and t.hi > 65535 and codec != 'oer':
         return 'size above 65535 (X.691 fragmentation, not generated)'
     if k == 'bits' and t.n > 64:
         return 'BIT STRING longer than 64 bits'
     if k == 'ref':
         if (t.module, t.name) in seen:
             return 'recursive type'
-        return c_supported_type(spec, spec.index[(t.module, t.name)], seen + ((t.module, t.name),))
+        return c_supported_type(spec, spec.index[(t.module, t.name)], seen + ((t.module, t.name),), codec)
     if k == 'seq':
-        for m in t.members:
-            r = c_supported_type(spec, m.ty, seen)
+        for m in t.members + getattr(t, 'additions', []):
+            r = c_supported_type(spec, m.ty, seen, codec)
             if r:
                 return r
+        for m in getattr(t, 'additions', []):
+            if any(x.kind == 'bits' for x in subtypes(spec.resolve(m.ty))):
+                return 'BIT STRING inside an extension addition (the generator has no length code for it and says so)'
     if k == 'seqof':
-        return c_supported_type(spec, t.elem, seen)
+        return c_supported_type(spec, t.elem, seen, codec)
     if k == 'choice':
         for _, a in t.alts:
-            r = c_supported_type(spec, a, seen)
+            r = c_supported_type(spec, a, seen, codec)
             if r:
                 return r
     return None
 
 
-def c_supported(spec):
+def c_supported(spec, codec='uper'):
     for m, ts in spec.modules:
         for n, t in ts:
-            r = c_supported_type(spec, t, ((m, n),))
+            r = c_supported_type(spec, t, ((m, n),), codec)
             if r:
                 return r
     return None
@@ -738,7 +797,12 @@ def valid_value(spec, ty, v):
                         return False
                 elif not (m.optional or m.has_default):
                     return False
+            for m in getattr(t, 'additions', []):
+                if m.name in v and not valid_value(spec, m.ty, v[m.name]):
+                    return False
             return True
+        if k == 'real':
+            return isinstance(v, float) and v == v
         if k == 'seqof':
             return isinstance(v, list) and t.lo <= len(v) <= t.hi and all(valid_value(spec, t.elem, e) for e in v)
         if k == 'choice':
@@ -771,7 +835,7 @@ def approx_struct_bytes(spec, ty, depth=0):
     if k == 'octets':
         return t.hi + 4
     if k == 'seq':
-        return sum(approx_struct_bytes(spec, m.ty, depth + 1) + 1 for m in t.members) + 1
+        return sum(approx_struct_bytes(spec, m.ty, depth + 1) + 1 for m in t.members + getattr(t, 'additions', [])) + 1
     if k == 'seqof':
         return t.hi * approx_struct_bytes(spec, t.elem, depth + 1) + 4
     if k == 'choice':
